@@ -7,6 +7,8 @@
    implementation as well as of a resetting one. *)
 From Coq Require Import List Arith PeanoNat Bool.
 Import ListNotations.
+From Coq Require Import String.
+Local Open Scope list_scope.
 
 (* Unknown: the translator could not classify the routine; never counted as resetting *)
 Inductive disc := Assign | PushBack | ClearPush | Unknown.
@@ -26,6 +28,13 @@ Record state := mkState {
   ints : list fsum; firsts : list fsum; seconds : list fsum }.
 
 Definition init_state : state := mkState 0 0 [] [] [].
+
+(* the data members of ECPIntegrator that this state abstracts: the inputs (shells, ecps: the two coordinate versions), the
+   engine and the set-up constants fixed by init (ecpint, maxLB, deriv, ncart, natoms, min_alpha, the two flags), and the
+   three result containers.  T-api reads the actual member list from api.hpp on every run (gen/Obl_C05.v: members_ok). *)
+Definition modelled_members : list string :=
+  ["shells"; "ecps"; "ecpint"; "maxLB"; "deriv"; "ncart"; "natoms"; "min_alpha"; "ecp_is_set"; "basis_is_set";
+   "integrals"; "first_derivs"; "second_derivs"]%string.
 
 Definition init_cont (d : disc) (old : list fsum) (n : nat) : list fsum :=
   match d with Assign | ClearPush => repeat [] n | _ => old ++ repeat [] n end.
